@@ -4,6 +4,8 @@ package main
 import (
 	"verif/driver"
 	_ "verif/props"
+	_ "verif/props/clip"
+	_ "verif/props/declp"
 	_ "verif/props/diskp"
 	_ "verif/props/faultp"
 	_ "verif/props/fsp"
